@@ -30,7 +30,9 @@ ASSUMPTIONS = ["elements/keys have lawful __eq__/__hash__ (tokens are mapped to 
                "CPython dict preserves insertion order; itertools.tee/islice/zip/zip_longest behave as documented",
                "negative maxsplit, window size 0, chunk size <= 0, overlap_size >= chunk_size and non-boolean "
                "partition keys are outside 'valid parameters' (modelled where cheap, not constrained by the Spec)"]
-TRUSTED = ["harness/translators/c09_ranges.py (AST of chunk_ranges -> Model/C09_PyRanges.v program) and the interpreter's "
+TRUSTED = ["harness/translators/c09_loops.py (scanner loops of split_iter / unique_iter / bucketize -> Gallina; the argument "
+           "dispatch preludes are compared literally, not translated) and its stated let/if/continue/yield conventions",
+           "harness/translators/c09_ranges.py (AST of chunk_ranges -> Model/C09_PyRanges.v program) and the interpreter's "
            "reading of that Python subset (range(), %, min, generator return)",
            "Model/C09_Model.v is hand-written; tied to boltons.iterutils by the correspondence run on every check",
            "Spec/C09_Spec.v transcribes str.split/str.strip; cross-checked on every run against the real "
@@ -47,7 +49,12 @@ def translators(repo):
     seen, total = c09_ranges.selftest(repo)
     if seen != total:
         raise RuntimeError("translator self-test: only %d of %d source perturbations were visible" % (seen, total))
-    return {"C09_Gen": text}
+    import c09_loops
+    text2 = c09_loops.translate(repo)
+    seen, total = c09_loops.selftest(repo)
+    if seen != total:
+        raise RuntimeError("loop translator self-test: only %d of %d source perturbations were visible" % (seen, total))
+    return {"C09_Gen": text, "C09_Src": text2}
 
 
 # --------------------------------------------------------------------------
